@@ -1,5 +1,6 @@
 mod clock;
 mod gossip;
+mod source;
 mod membership;
 mod selector;
 
@@ -12,6 +13,7 @@ fn main() {
     match cmd.as_str() {
         "replay-selector" => rt.block_on(selector::replay()),
         "record-gossip" => rt.block_on(gossip::record()),
+        "record-source" => rt.block_on(source::record()),
         // paused clock on one thread: a timeout fires only when every task is idle, so "the watcher did not
         // publish" is a deterministic observation and not a matter of load
         "replay-membership" => tokio::runtime::Builder::new_current_thread()
